@@ -9,6 +9,7 @@ limiter is executed from the real source under J and must re-establish J; J and 
     W <= L + SLACK + L * (clock - ts)          (C20.window)."""
 from __future__ import annotations
 
+import ast
 import z3
 
 from pyvc.ctx import Ctx, Explorer, Unsupported, PathAbort
@@ -163,6 +164,35 @@ def prove_window_lemma(src_root, ex: Explorer, slack: int, suffix: str):
         ctx.prove(f'C20.window.init{suffix}', z3.substitute(J(W, F, bs, ts, L, b, r, slack),
                                                              (W, z3.IntVal(0)), (F, z3.BoolVal(False)), (bs, b)))
     ex.run(path, 'window' + suffix)
+
+
+def prove_progress(src_root, ex: Explorer):
+    """Bounded wait with up to 4 connections on one limiter.  Every waiter sleeps at least INTERVAL between two of its refills, so among
+    any 5 consecutive refills two are by the same waiter: 4 consecutive gaps add up to at least INTERVAL and one of them is at least
+    INTERVAL / 4.  The obligation: a refill after such a gap credits AT LEAST ONE token to an empty bucket (bucket < MIN_BUCKET_SIZE), for
+    every limit >= 1 KiB/s - int() drops the fraction and the stamp is advanced regardless, so a refill that credits nothing loses the
+    elapsed time.  Then the bucket grows by >= 1 per round of INTERVAL and a waiter is served after at most MIN_BUCKET_SIZE rounds.
+    INTERVAL and MIN_BUCKET_SIZE are read from the source; refill() is executed symbolically (non-linear real arithmetic)."""
+    def path(ctx: Ctx):
+        it = mk(src_root, ctx)
+        o, L, b, r = limiter(it, ctx)
+        interval = unbox(it.module_global(it.source.module(RL), 'INTERVAL'))
+        mbs = unbox(it.class_attr(cls(it, RL, 'LimitedRateLimiter'), 'MIN_BUCKET_SIZE'))
+        ctx.prove('C20.progress.constants', isinstance(interval, (int, float)) and interval > 0 and isinstance(mbs, int) and mbs >= 1)
+        if not isinstance(interval, (int, float)):
+            return
+        from fractions import Fraction
+        q = Fraction(str(interval)) / 4
+        gap = z3.Real('gap')
+        ctx.assume(z3.And(b >= 0, b < mbs, gap >= z3.RealVal(str(q))))
+        now = r + gap
+        it.natives['time.monotonic'] = Native('time.monotonic', lambda it2, a, k: Sym(now, 'real'))
+        it.call(it.getattr(o, 'refill'), [], {})
+        b2 = fld(o, 'bucket')
+        ctx.prove('C20.progress.four-waiters', z3.Or(b2 >= b + 1, b2 == L),
+                  f'with 4 connections waiting on one limiter a refill after a gap of INTERVAL/4 = {float(q)} s can credit 0 tokens (and still '
+                  'advances last_refill): the bucket never reaches MIN_BUCKET_SIZE and every request for tokens waits forever')
+    ex.run(path, 'progress')
 
 
 def prove_misc(src_root, ex: Explorer):
@@ -327,10 +357,43 @@ def prove_connection_use(src_root, ex: Explorer):
         ctx.prove('C20.send_file.reads-at-most-grant', z3.BoolVal(len(asked) == 1) if len(asked) != 1 else z3int(asked[0]) <= grant)
     ex.run(send, 'send_file-grant')
 
+    def current(ctx: Ctx):
+        """loop contract of both transfer loops (an ARBITRARY iteration): the tokens are taken from the limiter that is installed on the
+        connection AT THAT ITERATION.  Network.set_*_speed_limit replaces the limiter objects of the open connections, so a limiter read
+        once before the loop keeps a running transfer on the old limit."""
+        it = mk(src_root, ctx)
+        which = ['receive_file', 'send_file'][ctx.choose(2, 'loop')]
+        attr = 'download_rate_limiter' if which == 'receive_file' else 'upload_rate_limiter'
+        c = Obj(cls(it, CONN, 'PeerConnection'))
+        calls = []
+        old = Stub('limiter installed when the transfer started', take_tokens=Recorder('take_tokens', fn=lambda it2, a, k: (calls.append('old'), 128)[1], is_async=True))
+        new_ = Stub('limiter installed by a limit change', take_tokens=Recorder('take_tokens', fn=lambda it2, a, k: (calls.append('new'), 128)[1], is_async=True))
+        c.attrs[attr] = old
+        from pyvc.rope import Rope
+        it.hooks[f'{CONN}:PeerConnection.receive_data'] = lambda it2, f, a, k: A.SimpleAwaitable(it2.aio, 'receive_data', lambda it3: None)
+        fh = Stub('fh', read=Recorder('read', ret=Rope(), is_async=True), write=Recorder('write', is_async=True))
+
+        def loop(it2, node, env):
+            c.attrs[attr] = new_                 # the limit was changed between two chunks
+            if isinstance(node, ast.While) and it2.truth(it2.eval(node.test, env)) is False:
+                return
+            try:
+                it2.exec_block(node.body, env)
+            except (ContinueEx, BreakEx):
+                pass
+        it.loop_specs[(f'{CONN}:PeerConnection.{which}', 0)] = loop
+        if which == 'receive_file':
+            run(it, it.getattr(c, which), fh, 1000)
+        else:
+            run(it, it.getattr(c, which), fh)
+        ctx.prove(f'C20.{which}.uses-current-limiter', calls == ['new'],
+                  f'the chunk after a limit change takes its tokens from {calls}: the transfer keeps the limiter it started with')
+    ex.run(current, 'current-limiter')
+
 
 def items(src_root, tier):
     return [('refill', 0), ('take', 0), ('window', 0), ('refill', CHUNK), ('take', CHUNK), ('window', CHUNK),
-            ('misc', None), ('network', None), ('conn', None)]
+            ('misc', None), ('network', None), ('conn', None), ('progress', None)]
 
 
 def run_item(src_root, item, tier):
@@ -343,6 +406,8 @@ def run_item(src_root, item, tier):
             {'refill': prove_refill, 'take': prove_take, 'window': prove_window_lemma}[kind](src_root, ex, arg, suffix)
         elif kind == 'misc':
             prove_misc(src_root, ex)
+        elif kind == 'progress':
+            prove_progress(src_root, ex)
         elif kind == 'network':
             prove_network(src_root, ex)
         elif kind == 'conn':
